@@ -415,7 +415,7 @@ func (e *Env) missing(op *Op) bool {
 	if op.Op == "stats_merge" && e.segs[op.Seg2] == nil {
 		return true
 	}
-	if op.Op == "merge" || op.Op == "merge_fail" {
+	if op.Op == "merge" || op.Op == "merge_fail" || op.Op == "merge_fsweep" {
 		for _, h := range op.In {
 			if e.segs[h] == nil {
 				return true
@@ -492,6 +492,8 @@ func (e *Env) Do(op *Op) {
 		e.doArmGateClose(op)
 	case "wfaults":
 		e.doWFaults(op)
+	case "merge_fsweep":
+		e.doMergeFSweep(op)
 	case "dit_open":
 		e.doDitOpen(op)
 	case "dit_next":
@@ -756,6 +758,90 @@ func (e *Env) doMerge(op *Op) {
 	}
 	e.emit(M{"ev": "merge", "file": op.File, "in": op.In, "drops": dropsEv, "mode": int(mode),
 		"public": op.Mode == 0, "buf": op.Buf, "impl": impl.Name, "res": res})
+}
+
+// doMergeFSweep repeats the merge that produced file op.File (same inputs, drops, mode, buffer) while one read of
+// the file-backed input op.Seg fails: the k-th read of the run for every k (step op.Stop), transiently ("once") and,
+// on a coarser grid, from then on ("after").  Outcome: <<k, mode, err, same bytes as op.File>>.
+func (e *Env) doMergeFSweep(op *Op) {
+	impl := implByName(op.Impl)
+	h := e.seg(op.Seg)
+	want, have := e.files[op.File]
+	if h == nil || h.cr == nil || !have {
+		e.emit(M{"ev": "skip", "op": "merge_fsweep"})
+		return
+	}
+	segs := make([]segment.Segment, len(op.In))
+	drops := make([]*roaring.Bitmap, len(op.In))
+	for i, x := range op.In {
+		segs[i] = e.seg(x).seg
+		var d *DropSpec
+		if i < len(op.Drops) {
+			d = &op.Drops[i]
+		}
+		drops[i] = e.bitmapOf(d)
+	}
+	run := func() (string, []byte) {
+		var m segment.Merger
+		if op.Mode == 0 {
+			m = impl.Merge(segs, drops, op.Buf)
+		} else {
+			m = impl.MergeM(segs, drops, op.Buf, op.Mode)
+		}
+		var buf bytes.Buffer
+		var err error
+		cl := e.call(func() { _, err = m.WriteTo(&buf, make(chan struct{})) })
+		switch {
+		case cl == "blocked":
+			return "blocked", nil
+		case cl != "":
+			return "panic", nil
+		case err != nil:
+			return "err", nil
+		}
+		return "nil", buf.Bytes()
+	}
+	// the number of reads of an undisturbed run
+	const far = int64(1) << 40
+	atomic.StoreInt64(&h.cr.allow, far)
+	atomic.StoreInt32(&h.cr.armed, 2)
+	es, got := run()
+	reads := int(far - atomic.LoadInt64(&h.cr.allow))
+	atomic.StoreInt32(&h.cr.armed, 0)
+	if es != "nil" || !bytes.Equal(got, want) {
+		e.emit(M{"ev": "merge_fsweep", "file": op.File, "seg": op.Seg, "in": op.In, "reads": reads,
+			"outcomes": [][]interface{}{{-1, "none", es, es == "nil" && bytes.Equal(got, want)}}, "res": M{"kind": "ok"}})
+		return
+	}
+	step := 1
+	if op.Stop > 1 {
+		step = op.Stop
+	}
+	outcomes := [][]interface{}{}
+	for _, mode := range []string{"once", "after"} {
+		st := step
+		if mode == "after" {
+			if c := reads / 24; c > st {
+				st = c
+			}
+		}
+		for k := op.N % st; k < reads; k += st {
+			atomic.StoreInt64(&h.cr.allow, int64(k))
+			if mode == "once" {
+				atomic.StoreInt32(&h.cr.armed, 2)
+			} else {
+				atomic.StoreInt32(&h.cr.armed, 1)
+			}
+			es, got := run()
+			atomic.StoreInt32(&h.cr.armed, 0)
+			outcomes = append(outcomes, []interface{}{k, mode, es, es == "nil" && bytes.Equal(got, want)})
+			e.cov["fsweep_"+mode]++
+			if es == "nil" {
+				e.cov["fsweep_nil_"+mode]++
+			}
+		}
+	}
+	e.emit(M{"ev": "merge_fsweep", "file": op.File, "seg": op.Seg, "in": op.In, "reads": reads, "outcomes": outcomes, "res": M{"kind": "ok"}})
 }
 
 // footerOf parses the fixed 44-byte footer itself (independent of ice) and
@@ -1388,9 +1474,18 @@ func (e *Env) doDvVisit(op *Op) {
 	}
 	vals := []M{}
 	var err error
+	var nestedDone bool
 	class := e.call(func() {
 		err = r.VisitDocumentValues(uint64(op.N), func(field string, term []byte) {
 			e.cbGate()
+			if op.Nested != nil && !nestedDone {
+				// re-entrancy: another read of the same segment from inside the callback, before the term is copied
+				nestedDone = true
+				sub := *e
+				sub.keybuf = nil
+				sub.inline = true
+				sub.Do(op.Nested)
+			}
 			vals = append(vals, M{"field": field, "term": B(term)})
 		})
 	})
